@@ -647,3 +647,153 @@ def rule_zero_cover(prop, repo):
         R.check(ok, "%s:zero-cover:%s" % (prop, ty), "%s::is_zero tests coefficients %s of %d (each must be tested, conjunctively)" % (ty, covered, n), b.file_line(), b.rec["path"],
                 sample={"type": ty.split("::")[-1], "coefficients_tested": covered})
     return R.finish()
+
+
+# ====================================================================== simple linear maps of the tower / sparse operands
+def _comp(t):
+    """(ops applied outermost-first, source field index | None, extra argument) of a component term rooted at *self."""
+    ops = []
+    extra = None
+    t = strip(t)
+    while t[0] == "call" and t[2]:
+        ops.append(t[1].name)
+        if len(t[2]) == 2:
+            extra = strip(t[2][1])
+        t = strip(t[2][0])
+    if t[0] == "field" and strip(t[1]) in (("init", ("deref", 1)), ("param", 1)):
+        return tuple(ops), t[2], extra
+    return tuple(ops), None, extra
+
+
+def rule_tower_shapes(prop, repo):
+    F = repo.F
+    R = Rule("R-TOWER-SHAPE", "component-wise / permuting maps of the tower (double, triple, div2, unitary_inverse, mul_by_nonresidue, scale, scale_fq) have their defining shape; "
+             "sparse-multiplication helpers only ever receive operands whose ignored components are literally zero", floor=14, exhaustive=True)
+    T2, T4, T12 = "crate::fields::fq2::Fq2", "crate::fields::fq4::Fq4", "crate::fields::fq12::Fq12"
+    BY = (("param", 2), ("init", ("deref", 2)))
+    specs = []
+    for ty, n in ((T2, 2), (T4, 2), (T12, 3)):
+        for op in ("double", "triple"):
+            specs.append(("<%s as crate::fields::FieldElement>::%s" % (ty, op), [((op,), i, None) for i in range(n)]))
+    specs += [
+        ("%s::div2" % T2, [(("div2",), 0, None), (("div2",), 1, None)]),
+        ("%s::unitary_inverse" % T4, [((), 0, None), (("neg",), 1, None)]),
+        ("%s::mul_by_nonresidue" % T4, [(("mul_by_nonresidue",), 1, None), ((), 0, None)]),
+        ("%s::mul_by_nonresidue" % T12, [(("mul_by_nonresidue",), 2, None), ((), 0, None), ((), 1, None)]),
+        ("%s::scale" % T4, [(("mul",), 0, "by"), (("mul",), 1, "by")]),
+        ("%s::scale_fq" % T4, [(("scale",), 0, "by"), (("scale",), 1, "by")]),
+        ("%s::scale" % T12, [(("mul",), 0, "by"), (("mul",), 1, "by"), (("mul",), 2, "by")]),
+    ]
+    for path, want in specs:
+        b = F.bodies.get(path)
+        R.instance()
+        if b is None:
+            R.fail_closed("%s:shape:%s" % (prop, path), "%s not found" % path)
+            continue
+        rv = repo.tb(b).return_value()
+        ok = rv[0] == "agg" and len(rv[3]) == len(want)
+        got = []
+        if ok:
+            for c, (ops, src, ex) in zip(rv[3], want):
+                o, s, e = _comp(c)
+                got.append((o, s))
+                if o != ops or s != src or (ex == "by" and e not in BY):
+                    ok = False
+        R.check(ok, "%s:shape:%s" % (prop, path), "%s has components %s; defining shape is %s" % (path, got, [(w[0], w[1]) for w in want]), b.file_line(), path,
+                sample={"fn": path.split("::")[-2] + "::" + path.split("::")[-1], "components": [str(g) for g in got]} if R.instances % 4 == 1 else None)
+    for ap in repo.fp_types():
+        path = "<%s as crate::fields::FieldElement>::triple" % ap
+        b = F.bodies.get(path)
+        R.instance()
+        if b is None:
+            R.fail_closed("%s:shape:%s" % (prop, path), "%s not found" % path)
+            continue
+        rv = repo.tb(b).return_value()
+        SELF = (("param", 1), ("init", ("deref", 1)))
+        ok = rv[0] == "call" and rv[1].name == "add" and len(rv[2]) == 2
+        if ok:
+            a, c = strip(rv[2][0]), strip(rv[2][1])
+            if a in SELF:
+                a, c = c, a
+            ok = c in SELF and a[0] == "call" and a[1].name == "double" and strip(a[2][0]) in SELF
+        R.check(ok, "%s:shape:%s" % (prop, path), "%s is not double(self) + self: %s" % (path, show(rv, maxdepth=3)[:120]), b.file_line(), path, sample={"fn": path, "is": "self.double() + self"})
+    # ---- sparse helpers: table of (function, parameter, component path that the function never reads)
+    SPARSE = [("%s::mul_1" % T4, 2, (0,), "b.c0 = 0"), ("%s::mul_015" % T12, 2, (1,), "b.c1 = 0"), ("%s::mul_015" % T12, 2, (2, 0), "b.c2.c0 = 0")]
+
+    def zero_shaped(t, path):
+        """Is component `path` of term t structurally zero?"""
+        t = strip(t)
+        if t[0] == "call" and t[1].name == "zero" and not t[2]:
+            return True
+        if not path:
+            return False
+        if t[0] == "agg" and isinstance(t[1], str) and path[0] < len(t[3]):
+            return zero_shaped(t[3][path[0]], path[1:])
+        if t[0] == "call" and t[1].name == "new" and path[0] < len(t[2]):
+            return zero_shaped(t[2][path[0]], path[1:])
+        if t[0] == "call" and len(t[2]) >= 1:
+            cb = F.bodies.get(t[1].d)
+            if cb is not None:
+                crv = repo.tb(cb).return_value()
+                if crv[0] in ("agg", "call"):
+                    return zero_shaped(crv, path)
+        return False
+
+    def reads_component(b, p, path):
+        tb = repo.tb(b)
+        base = {("param", p), ("init", ("deref", p))}
+        for bb, t in list(b.calls()):
+            for a in tb.call_args(bb):
+                x = strip(a)
+                chain = []
+                while x[0] == "field":
+                    chain.append(x[2])
+                    x = strip(x[1])
+                if x in base:
+                    chain = tuple(reversed(chain))
+                    if chain[:len(path)] == path or path[:len(chain)] == chain and len(chain) < len(path) and not _callee_ignores(t, chain, path):
+                        return True
+        return False
+
+    def _callee_ignores(term, chain, path):
+        # passing a super-component on to another sparse helper that ignores the rest
+        d = (term.get("fn") or {}).get("res_def")
+        rest = path[len(chain):]
+        return any(s[0] == d and s[2] == rest for s in SPARSE)
+
+    lifted = {}
+    for path, p, comp, desc in SPARSE:
+        b = F.bodies.get(path)
+        R.instance()
+        if b is None:
+            R.fail_closed("%s:sparse:%s" % (prop, path), "%s not found" % path)
+            continue
+        if reads_component(b, p, comp):
+            R.note("%s reads %s: the sparse precondition no longer applies (entry stale, nothing to require)" % (path, desc))
+            R.ok()
+            continue
+        sites = 0
+        bad = []
+        for cb in F.fn_bodies():
+            ctb = None
+            for bb, t in cb.calls():
+                if (t.get("fn") or {}).get("res_def") != path:
+                    continue
+                ctb = ctb or repo.tb(cb)
+                arg = ctb.call_args(bb)[p - 1]
+                sites += 1
+                x = strip(arg)
+                # forwarded sub-component of the caller's own sparse parameter: covered by the caller's table entry
+                chain = []
+                y = x
+                while y[0] == "field":
+                    chain.append(y[2])
+                    y = strip(y[1])
+                chain = tuple(reversed(chain))
+                if y in (("param", 2), ("init", ("deref", 2))) and any(s[0] == cb.rec["path"] and s[2] == chain + comp for s in SPARSE):
+                    continue
+                if not zero_shaped(x, comp):
+                    bad.append("%s at %s passes %s" % (cb.rec["path"], loc_of(cb, bb), show(x, maxdepth=3)[:100]))
+        R.check(not bad and sites >= 1, "%s:sparse:%s:%s" % (prop, path, desc), "%s ignores %s of its operand, but a caller passes a value that is not structurally zero there: %s" % (path, desc, bad[:2]),
+                b.file_line(), path, sample={"helper": path, "requires": desc, "call_sites": sites})
+    return R.finish()
